@@ -55,9 +55,9 @@ package local
 //@ func (*hierarchicalCASBlobAccess).Get
 //@   requires hInv(ba) && hUnlocked(ba)
 //@   ensures result != nil
-//@   ensures [no-widening] wcount(ba.keyLocationMap) >= old(wcount(ba.keyLocationMap))
-//@     && (forall n :: old(wcount(ba.keyLocationMap)) <= n && n < wcount(ba.keyLocationMap) ==>
-//@            (exists j :: 0 <= j && j < len(lookupKeys) && wkey(ba.keyLocationMap, n) == lookupKeys[j]))
+//@   ensures [no-widening] wroteOnly(ba.keyLocationMap, lookupKey, lookupKey)
+//@   ensures [found-key-is-an-ancestor-key] wcount(ba.keyLocationMap) > old(wcount(ba.keyLocationMap)) ==>
+//@         (exists j :: 0 <= j && j < len(lookupKeys) && lookupKey == lookupKeys[j])
 
 //@ func (*hierarchicalCASBlobAccess).Get$1
 //@   requires hInv(ba) && hUnlocked(ba) && putWriter != nil && b2 != nil && bsize(b2) == psize(putWriter)
